@@ -56,6 +56,51 @@ theorem any_two_chunkings_agree (cs cs' : List (List UInt8)) (h : cs.flatten = c
     feedAll cs = feedAll cs' := by
   rw [chunking_irrelevant cs, chunking_irrelevant cs', h]
 
+/-- Generalisation to arbitrary schedules: any interleaving of appending pieces and single scanner
+calls (each time dropping what was reported consumed), finished by draining, delivers the frames of
+the whole stream, leaves the same remainder and has consumed the same total. -/
+theorem any_schedule_from (ops : List StreamOp) (s : StreamState) :
+    ((ops.foldl StreamState.step s).finish).delivered = s.delivered ++ (drainAll (s.buf ++ appended ops)).1 ∧
+    ((ops.foldl StreamState.step s).finish).buf = (drainAll (s.buf ++ appended ops)).2 ∧
+    ((ops.foldl StreamState.step s).finish).consumed + ((ops.foldl StreamState.step s).finish).buf.length
+      = s.consumed + s.buf.length + (appended ops).length := by
+  induction ops generalizing s with
+  | nil =>
+    simp only [List.foldl_nil, appended, List.append_nil, StreamState.finish, List.length_nil, Nat.add_zero]
+    have := drainAll_rem_le s.buf
+    exact ⟨trivial, trivial, by omega⟩
+  | cons op rest ih =>
+    simp only [List.foldl_cons]
+    cases op with
+    | append c =>
+      have := ih (s.step (.append c))
+      simp only [StreamState.step, appended] at this ⊢
+      rw [List.append_assoc] at this
+      refine ⟨this.1, this.2.1, ?_⟩
+      rw [this.2.2]; simp only [List.length_append]; omega
+    | scanOnce =>
+      rcases hs : scan s.buf with ⟨c, _ | f⟩
+      · have := ih (s.step .scanOnce)
+        simp only [StreamState.step, appended, hs, Option.toList, List.append_nil] at this ⊢
+        rw [drainAll_skip_dead s.buf (appended rest) c hs]
+        have hcle : c ≤ s.buf.length := by have := scan_consumed_le s.buf; rw [hs] at this; exact this
+        refine ⟨this.1, this.2.1, ?_⟩
+        rw [this.2.2]; simp only [List.length_drop]; omega
+      · have := ih (s.step .scanOnce)
+        simp only [StreamState.step, appended, hs, Option.toList] at this ⊢
+        rw [drainAll_take_frame s.buf (appended rest) c f hs]
+        have hp := scan_some_pos s.buf c f hs
+        refine ⟨by rw [this.1]; simp, this.2.1, ?_⟩
+        rw [this.2.2]; simp only [List.length_drop]; omega
+
+theorem any_schedule (ops : List StreamOp) :
+    ((ops.foldl StreamState.step .init).finish).delivered = (drainAll (appended ops)).1 ∧
+    ((ops.foldl StreamState.step .init).finish).buf = (drainAll (appended ops)).2 ∧
+    ((ops.foldl StreamState.step .init).finish).consumed + ((ops.foldl StreamState.step .init).finish).buf.length
+      = (appended ops).length := by
+  have := any_schedule_from ops .init
+  simpa [StreamState.init] using this
+
 /-! Non-vacuity: a cut inside the preamble/length field, the payload and the checksum. -/
 example :
     let v := mkFrame 0 [0x3e, 0xd0, 7]
